@@ -7,23 +7,21 @@ import (
 )
 
 // verifSrc is the random source of the Unstable under test: every 63-bit
-// value. math/rand's Float64 (executed from its own code) turns it into
-// float64(x)/2^63 and resamples when that rounds to 1.0; values that close to
-// 2^63 are excluded here instead (they never produce a result), which keeps the
-// resampling loop out of the exploration.
+// value. math/rand's Float64 turns a draw x into float64(x)/2^63 and resamples
+// when that rounds to 1.0 (engine: intr_rand.go assumes the draw is not one of
+// those; natively the real Float64 runs over this source).
 type verifSrc struct{}
 
 func (verifSrc) Int63() int64 {
 	x := verifInt64("rnd")
 	verifAssume(x >= 0)
-	verifAssume(x < 1<<63-1<<10)
 	return x
 }
 func (verifSrc) Seed(int64) {}
 
-// whole seconds, rounded up, in integer arithmetic (d > 0)
+// whole seconds, rounded up, in integer arithmetic (d >= 0)
 func verifCeilSec(d time.Duration) int {
-	return int((d + time.Second - 1) / time.Second)
+	return int(d/time.Second) + verifIte(d%time.Second != 0, 1, 0)
 }
 
 var verifBasesMs = []int{604800000, 60000, 1000, 1500, 3600000, 86400000, 2592000000, 7000}
@@ -46,8 +44,8 @@ func Verif_C06_ttl() {
 	u := NewUnstable(0.05) // the deviation the cache node is built with (expireDeviation)
 	u.r = rand.New(verifSrc{})
 	d := u.AroundDuration(base)
-	verifAssert(d >= base-base/20 && d <= base+base/20, "jittered expiry within +/-5% of the configured expiry")
+	verifAssert(verifAnd(d >= base-base/20, d <= base+base/20), "jittered expiry within +/-5% of the configured expiry")
 	ttl := int(math.Ceil(d.Seconds()))
-	verifAssert(ttl >= verifCeilSec(base-base/20) && ttl <= verifCeilSec(base+base/20), "TTL within +/-5% of the configured expiry, rounded up to whole seconds")
+	verifAssert(verifAnd(ttl >= verifCeilSec(base-base/20), ttl <= verifCeilSec(base+base/20)), "TTL within +/-5% of the configured expiry, rounded up to whole seconds")
 	verifReach("jitter")
 }
